@@ -743,7 +743,7 @@ def in_known_class(prog, npenv=None):
 
 
 _KNOWN_MSG = (
-    ("swv-layout-drift", ("Missing dependency ('sliding-window-", "adjust_chunks specified with"), "swv_reduce"),
+    ("swv-layout-drift", ("Missing dependency ('sliding-window-", "adjust_chunks specified with", "optimization changed the block structure"), "swv_reduce"),
     ("take-through-broadcast", ("Chunks do not add up to shape",), "broadcast_to"),
 )
 
